@@ -177,3 +177,28 @@ Theorem split_creates_the_models_triangles_with_their_labels :
       (Refiner_gen.split_faces_gen (Refiner_gen.same_orientation_gen (x, y, z) a b) a b (MeshOps.third (x, y, z) a b) e ty) = true.
 Proof. exact RefinerTie.split_tri_is_what_the_source_creates. Qed.
 Print Assumptions split_creates_the_models_triangles_with_their_labels.
+
+(* WHAT THE REGENERATED CODE DOES, stated about the translated expressions themselves (over R): an edge split hands the momentum of
+   its two end points on unchanged in total, a collapse gives the new node their sum, the new node is the midpoint, and the decision
+   tree of refine_mesh never splits an edge that is not longer than l_max nor merges one that is not shorter than l_min. *)
+Theorem regenerated_split_conserves_momentum : forall ma mb : vec3 R,
+  vadd NumR (vadd NumR (Refiner_gen.split_mom_a_gen NumR ma mb) (Refiner_gen.split_mom_b_gen NumR ma mb)) (Refiner_gen.split_mom_e_gen NumR ma mb)
+  = vadd NumR ma mb.
+Proof. exact RefinerTie.generated_split_conserves_momentum. Qed.
+Print Assumptions regenerated_split_conserves_momentum.
+
+Theorem regenerated_merge_conserves_momentum : forall ma mb : vec3 R, Refiner_gen.merge_mom_gen NumR ma mb = vadd NumR ma mb.
+Proof. exact RefinerTie.generated_merge_conserves_momentum. Qed.
+Print Assumptions regenerated_merge_conserves_momentum.
+
+Theorem regenerated_new_node_is_the_midpoint : forall pa pb : vec3 R,
+  Refiner_gen.split_pos_gen NumR pa pb = Refiner_gen.merge_pos_gen NumR pa pb /\
+  vsub NumR (Refiner_gen.split_pos_gen NumR pa pb) pa = vsub NumR pb (Refiner_gen.split_pos_gen NumR pa pb).
+Proof. exact RefinerTie.generated_new_node_is_the_midpoint. Qed.
+Print Assumptions regenerated_new_node_is_the_midpoint.
+
+Theorem regenerated_decision_is_selective : forall (lmin2 lmax2 l : R) (cm : bool),
+  (Refiner_gen.decision_gen NumR lmin2 lmax2 l cm = RefineLoop.DSplit -> (lmax2 < l)%R) /\
+  (Refiner_gen.decision_gen NumR lmin2 lmax2 l cm = RefineLoop.DMerge -> (l < lmin2)%R /\ cm = true /\ ~ (lmax2 < l)%R).
+Proof. exact RefinerTie.generated_decision_is_selective. Qed.
+Print Assumptions regenerated_decision_is_selective.
